@@ -778,7 +778,8 @@ func validateFieldMapping(predecessorType reflect.Type, successorType reflect.Ty
 		return nil, nil
 	}
 
-	checker := func(value any) (any, error) {
+	// the checked chunks stay typed as map[string]any: the stream converter that follows expects exactly that chunk type
+	checker := func(value any) (map[string]any, error) {
 		mValue := value.(map[string]any)
 		var err error
 		for k, v := range fieldCheckers {
@@ -794,7 +795,9 @@ func validateFieldMapping(predecessorType reflect.Type, successorType reflect.Ty
 		return mValue, nil
 	}
 	return &handlerPair{
-		invoke: checker,
+		invoke: func(value any) (any, error) {
+			return checker(value)
+		},
 		transform: func(input streamReader) streamReader {
 			return packStreamReader(schema.StreamReaderWithConvert(input.toAnyStreamReader(), checker))
 		},
